@@ -84,6 +84,11 @@ fn engine_shard(id: &str, tier: &str, seed: u64, replay: Option<&serde_json::Val
                 out.found.push(f);
             }
         }
+        if id == "C14" && replay.is_none() && out.found.is_empty() && shard.k == 6 % shard.n {
+            if let Some(f) = checks_c05::c14_fault_twin(seed, &mut out.cov) {
+                out.found.push(f);
+            }
+        }
         if id == "C13" && replay.is_none() && out.found.is_empty() && shard.k == 9 % shard.n {
             if let Some(f) = checks_e1::largest_body_lockstep(&mut out.cov) {
                 out.found.push(f);
